@@ -433,7 +433,12 @@ func (its *document) IsGarbage() bool {
 }
 
 func (its *document) GetParentDocument() Document {
-	return its.toDocument(its.snapshot().getParent())
+	parent := its.snapshot().getParent()
+	if parent == nil {
+		// the root has no parent: a Document around nothing would panic at its first use
+		return nil
+	}
+	return its.toDocument(parent)
 }
 func (its *document) GetRootDocument() Document {
 	if its.snapshot().getRoot() == its.snapshot() {
